@@ -579,6 +579,23 @@ def r12_4(ctx, rr):
         atom_le(("field", P["self"], "n"), ("field", P["self"], "count")),
         atom_le(("field", P["self"], "u"), P["value"], True),
         atom_le(P["value"], ("field", P["self"], "last_value"), True)], min_exits=1)
+    # from_slice: rejects only sources that really do not fit the word
+    fs = F.one(r"^bits::bit_field_vec::BitFieldVec::<W>::from_slice$")
+    errs = []
+
+    def on_fs(W, n, K):
+        if n.get("k") == "Ret" and "e" in n and W.debug_depth == 0 and show(F, n["e"]).startswith("v1::Err("):
+            errs.append((n, K.copy()))
+    Walker(F, fs, on_node=on_fs).run()
+    if not errs:
+        raise AnchorMissing("from_slice: no `return Err(..)`")
+    for n, K in errs:
+        rr.instances += 1
+        ok = any(a[0] == "le" and a[3] <= -1 and a[1][0] == "def" and a[1][1].endswith("BITS") and a[2][0] == "var" for a in K.atoms)
+        rr.ob(ok, key="BitFieldVec::from_slice:rejects-only-too-wide", sample={"established": K.show()[:4]})
+        if not ok:
+            rr.violate("BitFieldVec::from_slice:rejects-only-too-wide", "from_slice refuses its input at `%s` although `W::BITS < needed width` is not established (established: %s): a source whose largest value needs exactly W::BITS bits fits a full-width vector and must be accepted" % (show(F, n)[:60], "; ".join(K.show()[:4])), F.loc(n))
+
     def index_of_reasons(P):
         val = None
         for name, t in P.items():
